@@ -516,6 +516,9 @@ class Literal(Operable):
     def __getnewargs__(self):
         return tuple([self.value])
 
+    def __hash__(self):
+        return hash(self.__class__) ^ hash(repr(self.value)) ^ hash(self.kind)
+
     def __repr__(self):
         return repr(self.value)
 
